@@ -103,7 +103,8 @@ InsertOps(x) == << [op |-> "headH", b |-> x], [op |-> "canon", b |-> x], [op |->
 \* rawdb.WriteTxLookupEntries directly on the database: one Put per transaction
 TxlOps(x) == [k \in 1..Cardinality(Txs(x)) |-> [op |-> "txl", b |-> x, t |-> SetSeq(Txs(x))[k]]]
 \* rawdb.WriteBlock: body, hash->number, header
-StoreOps(b) == << [op |-> "body", b |-> b], [op |-> "hnum", b |-> b], [op |-> "hdr", b |-> b] >>
+\* rawdb.WriteBlock: header (hash->number, header) first, then the body (since /repo commit 097d4db; body first before)
+StoreOps(b) == << [op |-> "hnum", b |-> b], [op |-> "hdr", b |-> b], [op |-> "body", b |-> b] >>
 
 \* WriteBlockWithState(b) with the current head s.cur
 Plan(s, b, f) ==
